@@ -187,6 +187,13 @@ def run_cells(ctx, exe):
             for k in ("sel", "out", "comp"):
                 ops.append(f"line 1 {k} {n}")
                 checks.append(("line", k, n))
+    # ids that are not live (never issued, negative, destroyed): every binding must give the invalid-instance result, and
+    # the Fortran glue must pass it on unchanged (no index shift / heading-row subtraction applied to an error code)
+    ops.append("destroy 0")
+    checks.append(("skip",))
+    for dead in (0, 99, -1, -6):
+        ops.append(f"counts {dead}")
+        checks.append(("deadcounts", dead))
     r = ctx.run_harness(exe, "\n".join(ops) + "\n", timeout=120)
     if r.returncode != 0:
         return 0, ("crash", r.stderr[-300:]), ops
@@ -207,6 +214,13 @@ def run_cells(ctx, exe):
             e = relations(ln)
             if e:
                 return n, ("line", chk, ln, e), ops
+        elif chk[0] == "deadcounts":
+            t = ln.split()
+            vals = {t[i]: (int(t[i + 1]), int(t[i + 2]), int(t[i + 3])) for i in range(1, len(t), 4)}
+            for k, (c, cpp, f) in vals.items():
+                if f != c or (k in ("rows", "cols", "errlines", "comps", "selcount") and c != -6):
+                    return n, ("deadcounts", chk, ln, f"{k}: id {chk[1]} is not live: C {c} F {f} (expected both IPQ_BADINSTANCE = -6 "
+                                                      f"or, for string accessors, equal)"), ops
         else:
             t = ln.split()
             vals = {t[i]: (int(t[i + 1]), int(t[i + 2]), int(t[i + 3])) for i in range(1, len(t), 4)}
